@@ -40,6 +40,30 @@ def mc(backend, maxlen, emit):
     return res
 
 
+def with_teardown(ops):
+    """The TLC history followed by the release of everything that is still alive (handles first: a borrowed handle pins the
+    arena value it borrows from), so that every history ends with the memory released -- and a history that leads back to an
+    already explored state (remove_on_drop set and reset, say) still gets its ending checked on the real code."""
+    hs, vals, nh, nv = [], [0], 1, 1
+    for o in ops:
+        k = o["k"]
+        if k in ("ab", "at", "adc"):
+            if vals:
+                hs.append(nh)
+                nh += 1
+        elif k == "drop":
+            if o["h"] in hs:
+                hs.remove(o["h"])
+        elif k == "clone":
+            if vals:
+                vals.append(nv)
+                nv += 1
+        elif k == "dropval":
+            if o["v"] in vals:
+                vals.remove(o["v"])
+    return list(ops) + [{"k": "drop", "h": h} for h in hs] + [{"k": "dropval", "v": v} for v in vals]
+
+
 def run_lifetimes(tier, seed):
     rng = random.Random(seed + 77)
     deep = tier == "thorough"
@@ -62,7 +86,7 @@ def run_lifetimes(tier, seed):
             drivers.append({"id": "h%d:%s:%d" % (5 if r in emit5 else 4, r["backend"], i),
                             "cfg": {"flavor": ["sync", "unsync"][i % 2], "backend": backends[(i // 2) % len(backends)], "cap": 256,
                                     "reserved": 0, "kind": "opt", "minseg": 8, "unify": False},
-                            "ops": ops})
+                            "ops": with_teardown(ops)})
     binary = rv.build_harness("dev")
     wd = rv.ensure_dir(os.path.join(rv.WORK, "handles"))
     dfile, tfile = os.path.join(wd, "drivers.ndjson"), os.path.join(wd, "trace.ndjson")
